@@ -12,6 +12,15 @@ package req
 //            error) or left to the normal dispatch;
 //   advance  the clock moves two hours (every stored Expire is back-dated through the
 //            pointers the transport holds)
+//   setting  EnableForceHTTP1/2/3, DisableForceHttpVersion, EnableHTTP3, DisableHTTP3, Clone —
+//            BETWEEN the other events: forcing changed after an alternative was learned /
+//            confirmed, un-forced again, HTTP/3 switched off and on
+//
+// Headers arrive as responses of a stub inner round tripper through the real
+// Transport.RoundTrip (its learning guard included); requests go through the real
+// Transport.RoundTrip as well: the origins' own ports are closed, so a request that is not
+// served through the Alt-Svc shortcut ends in a refused TCP dial (or, HTTP/3 forced, in a
+// QUIC dial to the origin's own port).
 //
 // on a real transport whose HTTP/3 round tripper dials a real loopback HTTP/3 origin through
 // the Dial seam (a dead endpoint fails after 20 ms; a request that has to fail does so through
@@ -36,7 +45,7 @@ import (
 	"net/url"
 	"strconv"
 	"strings"
-	"sync/atomic"
+	"sync"
 	"testing"
 	"time"
 
@@ -50,7 +59,7 @@ type c12AltFailKey struct{}
 
 func TestVerif_C12_altsm(t *testing.T) {
 	s := verifh.New(t, "C12", "c12altsm",
-		"sequences of 5..12 events over three origins (https://127.0.0.1:7001, https://127.0.0.1:7002, https://localhost:7001): Alt-Svc header (1..3 h3 entries with alive/dead endpoints and ma none/0/3600, or clear / h2 only / garbage), request (checkAltSvc; the HTTP/3 exchange succeeds or is made to fail), clock advance by two hours; a real HTTP/3 loopback origin behind the Dial seam; observable per event: disposition of the request (Alt-Svc shortcut ok / error / normal dispatch) and the origin's pending entry (index, ready); non-trivial = sequences with a header and a later request for the same origin")
+		"sequences of 5..12 events over three origins (two closed ports of 127.0.0.1, the first of them on localhost) starting from C().EnableHTTP3(): Alt-Svc header (1..3 h3 entries with alive/dead endpoints and ma none/0/3600, or clear / h2 only / garbage), request (checkAltSvc; the HTTP/3 exchange succeeds or is made to fail), clock advance by two hours, protocol setters in between (EnableForceHTTP1/2/3, DisableForceHttpVersion, EnableHTTP3, DisableHTTP3, Clone: forcing changed after an entry was learned or confirmed, and back); headers and requests go through the real Transport.RoundTrip; a real HTTP/3 loopback origin behind the Dial seam; observable per event: disposition of the request (Alt-Svc shortcut ok / error / normal dispatch) and the origin's pending entry (index, ready); non-trivial = sequences with a header and a later request for the same origin")
 	r := s.Rand()
 	g, err := c12StartOrigin(c12OfferTable["all"])
 	if err != nil {
@@ -68,26 +77,45 @@ func TestVerif_C12_altsm(t *testing.T) {
 		raw   string
 		model string
 	}
-	origins := []origin{{"https://127.0.0.1:7001", "1.7001"}, {"https://127.0.0.1:7002", "1.7002"}, {"https://localhost:7001", "2.7001"}}
+	closedPort := func() int {
+		l, err := net.Listen("tcp", "127.0.0.1:0")
+		if err != nil {
+			t.Fatalf("infrastructure: %v", err)
+		}
+		p := l.Addr().(*net.TCPAddr).Port
+		l.Close()
+		return p
+	}
+	p1, p2 := closedPort(), closedPort()
+	origins := []origin{{fmt.Sprintf("https://127.0.0.1:%d", p1), "1.1"}, {fmt.Sprintf("https://127.0.0.1:%d", p2), "1.2"}, {fmt.Sprintf("https://localhost:%d", p1), "2.1"}}
 	n := verifh.N(250, 5000)
 	for i := 0; i < n; i++ {
 		c := C().EnableInsecureSkipVerify().EnableHTTP3()
 		tr := c.GetTransport()
-		var seamCalls atomic.Int64
-		tr.t3.Dial = func(ctx context.Context, addr string, tlsCfg *tls.Config, qc *quic.Config) (quic.EarlyConnection, error) {
-			seamCalls.Add(1)
-			_, port, _ := net.SplitHostPort(addr)
-			if ctx.Value(c12AltFailKey{}) != nil {
-				return nil, errors.New("c12: exchange made to fail")
+		var seamMu sync.Mutex
+		var seamPorts []string // ports the Dial seam was asked for during the current request
+		installSeam := func() {
+			if tr.t3 == nil {
+				return
 			}
-			if port != fmt.Sprint(g.port) {
-				time.Sleep(20 * time.Millisecond) // a failure that takes time, as every real QUIC failure
-				return nil, errors.New("c12: dead endpoint")
+			tr.t3.Dial = func(ctx context.Context, addr string, tlsCfg *tls.Config, qc *quic.Config) (quic.EarlyConnection, error) {
+				_, port, _ := net.SplitHostPort(addr)
+				seamMu.Lock()
+				seamPorts = append(seamPorts, port)
+				seamMu.Unlock()
+				if ctx.Value(c12AltFailKey{}) != nil {
+					return nil, errors.New("c12: exchange made to fail")
+				}
+				if port != fmt.Sprint(g.port) {
+					time.Sleep(20 * time.Millisecond) // a failure that takes time, as every real QUIC failure
+					return nil, errors.New("c12: dead endpoint")
+				}
+				return quic.DialAddrEarly(ctx, "127.0.0.1:"+port, tlsCfg, qc)
 			}
-			return quic.DialAddrEarly(ctx, "127.0.0.1:"+port, tlsCfg, qc)
 		}
+		installSeam()
 		now := 0
-		var toks, outs []string
+		toks, outs := []string{"s:e3"}, []string{"s"}
 		entryPorts := map[*pendingAltSvc][]int{} // lane's own record: ports of the entries of each advertisement
 		pendingOf := func(o origin) (*pendingAltSvc, string) {
 			u, _ := url.Parse(o.raw)
@@ -116,18 +144,94 @@ func TestVerif_C12_altsm(t *testing.T) {
 			}
 		}
 		headerSeen := map[string]bool{}
+		confirmed := map[string]bool{} // origins with a successful exchange through the shortcut
+		forcedAfterConfirm := false
 		nontriv := false
 		crashed := ""
-		nev := 5 + r.Intn(8)
+		nev := 6 + r.Intn(9)
+		// every third sequence starts with the set-after-learn scheme: one origin advertises a live
+		// endpoint, 1..2 requests confirm it, THEN the forcing changes (and possibly changes back),
+		// with requests to that origin after each change; random events follow
+		type planned struct {
+			kind string // header | request | setting
+			o    int
+			tk   string
+		}
+		var plan []planned
+		if i%3 == 0 {
+			po := r.Intn(len(origins))
+			plan = append(plan, planned{"header", po, ""}, planned{"request", po, ""})
+			if r.Intn(2) == 0 {
+				plan = append(plan, planned{"request", po, ""})
+			}
+			for k := 1 + r.Intn(3); k > 0; k-- {
+				plan = append(plan, planned{"setting", po, []string{"f1", "f2", "f1", "f2", "uf", "f3", "cl", "d3"}[r.Intn(8)]}, planned{"request", po, ""})
+			}
+			c12Count(s, "scheme:set-after-learn")
+			if nev < len(plan)+2 {
+				nev = len(plan) + 2
+			}
+		}
 		for e := 0; e < nev && crashed == ""; e++ {
 			now++
 			o := origins[r.Intn(len(origins))]
+			x := r.Intn(24)
+			plannedTk := ""
+			liveHeader := false
+			if e < len(plan) {
+				o = origins[plan[e].o]
+				switch plan[e].kind {
+				case "header":
+					x, liveHeader = 0, true
+				case "request":
+					x = 10
+				case "setting":
+					x, plannedTk = 23, plan[e].tk
+				}
+			}
 			u, _ := url.Parse(o.raw + "/x")
-			switch x := r.Intn(20); {
+			switch {
+			case x >= 20: // a protocol setter
+				tk := []string{"f1", "f2", "f1", "f2", "uf", "uf", "uf", "f3", "e3", "d3", "cl"}[r.Intn(11)]
+				if plannedTk != "" {
+					tk = plannedTk
+				}
+				switch tk {
+				case "f1":
+					c.EnableForceHTTP1()
+				case "f2":
+					c.EnableForceHTTP2()
+				case "f3":
+					c.EnableForceHTTP3()
+				case "uf":
+					c.DisableForceHttpVersion()
+				case "e3":
+					c.EnableHTTP3()
+				case "d3":
+					c.DisableHTTP3()
+				case "cl":
+					tr.CloseIdleConnections()
+					if tr.t3 != nil {
+						tr.t3.Close()
+					}
+					c = c.Clone()
+					tr = c.GetTransport()
+				}
+				installSeam()
+				toks = append(toks, "s:"+tk)
+				outs = append(outs, "s")
+				c12Count(s, "ev:setting:"+tk)
+				if len(confirmed) > 0 && (tk == "f1" || tk == "f2") {
+					c12Count(s, "forced-after-confirmed")
+					forcedAfterConfirm = true
+				}
 			case x < 8: // header
 				var parts, mas []string
 				var ports []int
 				special := r.Intn(7)
+				if liveHeader {
+					special = 6
+				}
 				switch special {
 				case 0:
 					parts = []string{"clear"}
@@ -138,14 +242,18 @@ func TestVerif_C12_altsm(t *testing.T) {
 				default:
 					for k := 1 + r.Intn(3); k > 0; k-- {
 						port := g.port
-						if r.Intn(3) == 0 {
+						if r.Intn(3) == 0 && !liveHeader {
 							port = deadPort
 						}
 						ent := fmt.Sprintf(`h3=":%d"`, port)
 						if r.Intn(3) == 0 {
 							ent = fmt.Sprintf(`h3="127.0.0.1:%d"`, port)
 						}
-						switch r.Intn(3) {
+						mc := r.Intn(3)
+						if liveHeader && mc == 1 {
+							mc = 2
+						}
+						switch mc {
 						case 0:
 							mas = append(mas, "n")
 						case 1:
@@ -155,7 +263,7 @@ func TestVerif_C12_altsm(t *testing.T) {
 							ent += "; ma=3600"
 							mas = append(mas, "3600")
 						}
-						if r.Intn(4) == 0 {
+						if r.Intn(4) == 0 && !liveHeader {
 							ent += "; persist=1"
 						}
 						parts = append(parts, ent)
@@ -168,7 +276,18 @@ func TestVerif_C12_altsm(t *testing.T) {
 				value := strings.Join(parts, ", ")
 				before, _ := pendingOf(o)
 				rq, _ := http.NewRequest("GET", u.String(), nil)
-				if txt, p := verifh.Safely(func() { tr.handleAltSvc(rq, value) }); p {
+				saved := tr.wrappedRoundTrip
+				tr.wrappedRoundTrip = HttpRoundTripFunc(func(rq *http.Request) (*http.Response, error) {
+					return &http.Response{StatusCode: 200, Status: "200 OK", Proto: "HTTP/2.0", ProtoMajor: 2, Header: http.Header{"Alt-Svc": {value}},
+						Body: http.NoBody, Request: rq}, nil
+				})
+				txt, p := verifh.Safely(func() {
+					if resp, err := tr.RoundTrip(rq); err == nil && resp != nil {
+						resp.Body.Close()
+					}
+				})
+				tr.wrappedRoundTrip = saved
+				if p {
 					crashed = txt
 					break
 				}
@@ -219,7 +338,7 @@ func TestVerif_C12_altsm(t *testing.T) {
 				}
 			case x < 17: // request
 				pas, d := pendingOf(o)
-				want := r.Intn(4) != 0
+				want := r.Intn(4) != 0 || e < len(plan)
 				ok := want
 				idxBefore := -1
 				if pas != nil {
@@ -232,28 +351,50 @@ func TestVerif_C12_altsm(t *testing.T) {
 				}
 				ctx, cancel := context.WithTimeout(context.Background(), 3*time.Second)
 				if !ok {
-					tr.t3.Close() // no cached connection may serve it
+					if tr.t3 != nil {
+						tr.t3.Close() // no cached connection may serve it
+					}
 					ctx = context.WithValue(ctx, c12AltFailKey{}, true)
 				}
 				rq, _ := http.NewRequestWithContext(ctx, "GET", u.String(), nil)
+				seamMu.Lock()
+				seamPorts = nil
+				seamMu.Unlock()
 				var resp *http.Response
 				var rerr error
-				if txt, p := verifh.Safely(func() { resp, rerr = tr.checkAltSvc(rq) }); p {
+				if txt, p := verifh.Safely(func() { resp, rerr = tr.RoundTrip(rq) }); p {
 					crashed = txt
 					cancel()
 					break
 				}
+				_ = rerr
+				// through the shortcut = answered over HTTP/3 (the origins' own ports answer nothing), or
+				// failed after a QUIC dial to one of the ADVERTISED endpoints
 				served := "rN"
 				if resp != nil {
-					served = "rA1"
+					if resp.ProtoMajor == 3 {
+						served = "rA1"
+					}
 					resp.Body.Close()
-				} else if rerr != nil {
-					served = "rA0"
+				} else {
+					seamMu.Lock()
+					for _, sp := range seamPorts {
+						if sp == fmt.Sprint(g.port) || sp == fmt.Sprint(deadPort) {
+							served = "rA0"
+						}
+					}
+					seamMu.Unlock()
 				}
 				cancel()
 				toks = append(toks, fmt.Sprintf("r:%s:%d:%s", o.model, now, c12B(ok)))
 				c12Count(s, "ev:request")
 				c12Count(s, "served:"+served)
+				if served == "rA1" {
+					confirmed[o.model] = true
+				}
+				if forcedAfterConfirm && confirmed[o.model] && tr.forceHttpVersion != "" {
+					c12Count(s, "request-while-forced-after-confirmed")
+				}
 				if headerSeen[o.model] {
 					nontriv = true
 				}
@@ -282,6 +423,9 @@ func TestVerif_C12_altsm(t *testing.T) {
 				for _, oo := range origins {
 					uu, _ := url.Parse(oo.raw)
 					key := netutil.AuthorityKey(uu)
+					if tr.altSvcJar == nil {
+						continue
+					}
 					if as := tr.altSvcJar.GetAltSvc(key); as != nil {
 						as.Expire = as.Expire.Add(-2 * time.Hour)
 					}
@@ -298,7 +442,9 @@ func TestVerif_C12_altsm(t *testing.T) {
 			}
 		}
 		tr.CloseIdleConnections()
-		tr.t3.Close()
+		if tr.t3 != nil {
+			tr.t3.Close()
+		}
 		line := "c12altsm " + strings.Join(toks, ",")
 		human := "C().EnableHTTP3() ; " + strings.Join(toks, " ; ")
 		if crashed != "" {
@@ -310,7 +456,7 @@ func TestVerif_C12_altsm(t *testing.T) {
 		}
 		s.Case(line, strings.Join(outs, ","), true, "", nontriv, human)
 	}
-	for _, must := range []string{"ev:header", "ev:request", "ev:advance", "served:rA1", "served:rA0", "served:rN", "header:no-h3-entry", "next-entry-tried", "normal-after-header"} {
+	for _, must := range []string{"ev:header", "ev:request", "ev:advance", "served:rA1", "served:rA0", "served:rN", "header:no-h3-entry", "next-entry-tried", "normal-after-header", "ev:setting:f1", "ev:setting:f2", "ev:setting:uf", "ev:setting:d3", "ev:setting:cl", "forced-after-confirmed", "request-while-forced-after-confirmed"} {
 		if c12Hist[s][must] == 0 {
 			t.Errorf("never reached bucket %q", must)
 		}
